@@ -151,5 +151,28 @@ def run(ctx):
 
 
 def replay(ctx, obj):
-    print('cases are regenerated from the seed: VERIF_SEED=%s ./check C17' % obj.get('seed'))
-    return 0
+    """re-run one upgrade with the fault at the recorded write index and judge the signal trace"""
+    import random
+    from .. import dbrig
+    evorig.setup()
+    r = obj.get('replay', obj)
+    if 'spec0' not in r or 'mutations' not in r:
+        print('nothing to replay in this file: %r' % list(r))
+        return 0
+    sig0 = dbrig.sig_from_models(dbrig.build_models(r['spec0']))
+    final = sigs.real_simulate(sig0, 'vapp', [sigs.real_mutation(m) for m in r['mutations']])[1]
+    spec1 = dbrig.spec_from_sig(final)
+    spec1['apps'] = [a for a in spec1['apps'] if a['id'] == 'vapp']
+    case = {'spec0': r['spec0'], 'spec1': spec1, 'muts': r['mutations']}
+    evocases.prepare_v0(case, r.get('seed', 0))
+    evocases.install_v1(case)
+    lock0 = lock_value()
+    tr = evorig.Trace(fail_at=r.get('k'))
+    out = evorig.run_evolver(trace=tr)
+    problems = check_trace(tr, out[0])
+    if lock_value() != lock0:
+        problems.append('the evolve lock did not return to its previous value')
+    print('outcome=%s signals=%s' % (out[0], [s[0] for s in tr.signals()]))
+    for p_ in problems:
+        print('PROBLEM:', p_)
+    return 1 if problems else 0
